@@ -1,9 +1,9 @@
 """C20 — Data and values flow between csvpaths as declared."""
 from core import run_cases
 
-MODULES = ["Props.C20", "Props.C09", "Props.ResultsTie"]
+MODULES = ["Props.C20", "Props.C09", "Props.ResultsTie", "Props.C15Tie"]
 THEOREMS = ["Props.C20.c20_chain_inputs", "Props.C20.c20_chain_compose", "Props.C20.c20_varref", "Props.C20.c20_headerref",
-            "Props.C09.c09_csv_content", "Props.ResultsTie.c20_has_lines_source"]
+            "Props.C09.c09_csv_content", "Props.ResultsTie.c20_has_lines_source", "Props.C15Tie.source_mode_source_is_model"]
 
 
 def run(check, tier):
